@@ -23,14 +23,16 @@ What is proved here
   construction-only, guarded by `m_mappingMode`, mutex, …) is a fact about the C++ that is read off the code and
   validated by ThreadSanitizer runs, not derived; (2) the table is an inventory by regular expressions, not a proof
   of completeness (writes through non-const pointer members are tracked only one call deep; Xerces/ICU internals not
-  at all); (3) the C++ memory model is not modelled; (4) the assumption `listHeadsForced` (below).
-* `lazy_listhead_counterexample`, `lazy_listhead_interference_counterexample`: without the assumption
-  `listHeadsForced` the full statement is **false**: the `const_cast` in `XalanList::getListHead() const` lets a const
-  `find()`/`end()` on a never-used `XalanMap` allocate the list head.  This was a genuine defect of the tree as found:
-  two threads calling `id()` (→ `XalanSourceTreeDocument::getElementById`) on a shared source without ID attributes both
-  wrote `m_listHead` (ThreadSanitizer report; repaired in /repo by `fix:` d0cd23c, which creates the heads in the
-  constructors — `forced_listhead_schedule_independent` is the statement about the repaired shape).  The witness is
-  replayed on the real code by checks/c07.py on every run (corpus case `id-noids`) and must now be silent.
+  at all); (3) the C++ memory model is not modelled.
+* `lazy_listhead_interference_counterexample`: the genuine defect this property had in the tree as found.  The
+  `const_cast` in `XalanList::getListHead() const` let a const `find()`/`end()` on a never-used `XalanMap` allocate the list
+  head: two threads calling `id()` (→ `XalanSourceTreeDocument::getElementById`) on a shared source without ID attributes
+  both wrote `m_listHead` (ThreadSanitizer report).  `listHeadMachine` transcribes that code; the theorem exhibits the
+  schedule under which a thread compares its iterator with the other thread's head.  Repaired in /repo by `fix:` d0cd23c
+  (heads created in the constructors; `forced_listhead_schedule_independent`) and at the root by `fix:` c994d6f (const
+  `begin()/end()` no longer allocate; `nullHeadMachine`, `nullhead_schedule_independent`).  The table now carries the
+  channel as `…getListHead…|const-callers:none`; a new const caller changes the key and `execution_readonly_partial` fails.
+  The witness is replayed on the real code by checks/c07.py on every run (corpus case `id-noids`) and must be silent.
 * `nopool_counterexample`, `mapping_mode_counterexample`: outside the property's quantifier (Xerces source *not* in
   thread-safe mode) the model predicts races; checks/c07.py replays them as negative controls for the detector.
 -/
@@ -124,18 +126,23 @@ example : Transparent poolDemo (fun _ => ()) ∧ ¬ ReadOnly poolDemo ∧ Writes
 /-! ### the generated table -/
 
 /-- **Every write channel of the current source is classified**, and in the sharing mode the property quantifies over
-(native source tree, or Xerces DOM in thread-safe mode; list heads of shared containers created before sharing) none
+(native source tree, or Xerces DOM in thread-safe mode; *no* assumption about list heads any more) none
 of them carries an unsynchronised write to a shared object while transformations run.  `decide` over the complete
 regenerated table: a new `mutable` member, `const_cast`, non-const call through a pointer member, local static or
 non-const static in the classes reachable from `StylesheetRoot` / `XalanSourceTreeDocument` / `XercesDocumentWrapper`
-makes this fail until it is classified. -/
+makes this fail until it is classified.  Third part: for the lazily-headed containers (`XalanList`/`XalanMap`/`XalanSet`
+members of classes that are parts of a shared object) a classification `headForced` / `noConstLookup` must agree with what
+the translator sees in the source (constructor or postConstruction calls the non-const `begin()/end()`; no const member
+function uses the member). -/
 theorem execution_readonly_partial :
     (∀ e ∈ C07_Share.table, (classify e).isSome = true) ∧
-    (∀ e ∈ C07_Share.table, effectOf Mode.documented e ≠ Effect.sharedWrite) := by
+    (∀ e ∈ C07_Share.table, effectOf Mode.documentedAsIs e ≠ Effect.sharedWrite) ∧
+    (∀ e ∈ C07_Share.table, guardEvidence e = true) := by
   have h1 : C07_Share.table.all (fun e => (classify e).isSome) = true := by decide +kernel
-  have h2 : C07_Share.table.all (fun e => effectOf Mode.documented e != Effect.sharedWrite) = true := by decide +kernel
-  rw [List.all_eq_true] at h1 h2
-  exact ⟨h1, fun e he => by simpa using h2 e he⟩
+  have h2 : C07_Share.table.all (fun e => effectOf Mode.documentedAsIs e != Effect.sharedWrite) = true := by decide +kernel
+  have h3 : C07_Share.table.all guardEvidence = true := by decide +kernel
+  rw [List.all_eq_true] at h1 h2 h3
+  exact ⟨h1, fun e he => by simpa using h2 e he, h3⟩
 
 /-- table-level form of the discipline `race_free` needs -/
 theorem tableMachine_writesOnlySync (m : Mode) (hm : racyEntries m = []) :
@@ -208,10 +215,10 @@ theorem tableMachine_writesOnlySync (m : Mode) (hm : racyEntries m = []) :
 /-- **C07 over the generated table (partial).**  In the documented sharing mode: whatever accesses to the write
 channels of the current source the threads make (as long as they write only through channels the classification
 leaves open), under every schedule no two threads race. -/
-theorem table_race_free_partial (progs : List (List Access)) (hc : ∀ p ∈ progs, Conforms Mode.documented p)
+theorem table_race_free_partial (progs : List (List Access)) (hc : ∀ p ∈ progs, Conforms Mode.documentedAsIs p)
     (sched : List Nat) :
-    hasRace (syncLoc Mode.documented) (tableMachine.trace sched (tableConfig progs)) = false :=
-  tableMachine_writesOnlySync Mode.documented (by decide +kernel) progs hc sched
+    hasRace (syncLoc Mode.documentedAsIs) (tableMachine.trace sched (tableConfig progs)) = false :=
+  tableMachine_writesOnlySync Mode.documentedAsIs (by decide +kernel) progs hc sched
 
 /-- … and every thread's emitted access sequence is independent of the schedule (the table machine never changes
 its shared state at all). -/
@@ -228,8 +235,8 @@ def idxOf (key : Nat) : Nat := C07_Share.table.findIdx fun e => e.key == key
 /-- non-vacuity: conforming programs exist that do write (through the mutex-protected pool) and that read a
 lazily-built member -/
 example :
-    let pool := idxOf (key% "constPathCall|XercesDocumentWrapper|getPooledString|m_stringPool->get")
-    let nodeMap := idxOf (key% "mutableMember|XercesDocumentWrapper|m_nodeMap")
+    let pool := idxOf C07_Share.k_pooledString
+    let nodeMap := idxOf C07_Share.k_nodeMap
     pool < C07_Share.table.length ∧ nodeMap < C07_Share.table.length ∧
     Conforms Mode.documented [⟨pool, true⟩, ⟨nodeMap, false⟩] := by
   refine ⟨by decide +kernel, by decide +kernel, ?_⟩
@@ -239,24 +246,9 @@ example :
   · decide +kernel
   · simp at hw
 
-/-- **Counterexample** (inside the property's quantifier; true of /repo before `fix:` d0cd23c, and of any shared
-container whose head is not created before sharing).  Without the assumption that list heads are created before sharing, `XalanList::getListHead() const` is an open write channel, and two threads that
-both make a const `find()` on a never-used `XalanMap` of a shared `XalanSourceTreeDocument` (`id('x')`,
-`unparsed-entity-uri('e')`) race.  Replayed on the real code by checks/c07.py (`id-noids`). -/
-theorem lazy_listhead_counterexample :
-    let head := idxOf (key% "constCast|Include/XalanList.hpp|XalanList::getListHead|XalanList*")
-    (racyEntries Mode.documentedAsIs).map (·.name) = ["XalanList::getListHead|XalanList*"] ∧
-    Conforms Mode.documentedAsIs [⟨head, true⟩] ∧
-    hasRace (syncLoc Mode.documentedAsIs)
-      (tableMachine.trace [0, 1] (tableConfig [[⟨head, true⟩], [⟨head, true⟩]])) = true := by
-  refine ⟨by decide +kernel, ?_, by decide +kernel⟩
-  intro a ha _
-  simp only [List.mem_cons, List.not_mem_nil, or_false] at ha
-  subst ha
-  decide +kernel
-
-/-- **What the race does** (model of `XalanList::getListHead` and `XalanSourceTreeDocument::getElementById` as
-written, `listHeadMachine`).  Run alone or one after the other, every thread answers "not found" (`true`).  Under the
+/-- **What the race did** (counterexample inside the property's quantifier, true of /repo before `fix:` d0cd23c /
+c994d6f; model of `XalanList::getListHead` and `XalanSourceTreeDocument::getElementById` as they were written,
+`listHeadMachine`).  Run alone or one after the other, every thread answers "not found" (`true`).  Under the
 interleaving in which both threads test `m_listHead` before either assigns it, both allocate a head, and thread 0
 compares its iterator with the *other* thread's head: the lookup goes on to dereference it (`false`).  So the
 machine is not transparent, `noninterference` does not apply, and the outputs do depend on the schedule; the schedule's
@@ -358,10 +350,33 @@ theorem forced_listhead_schedule_independent (a : Nat) (sched : List Nat) (n i :
     simp only [Option.map_some]
     rw [hsolo _ t (hinit t (List.mem_of_getElem? hg))]
 
+/-- The lookup as it is written now (`fix:` c994d6f, `nullHeadMachine`): no step writes, so by `noninterference_readonly`
+every schedule gives every thread its solo result — whether or not the list has a head. -/
+theorem nullhead_schedule_independent (head : Option Nat) (sched : List Nat) (c : Config (Option Nat) LHThread Bool) (i : Nat)
+    (hc : c.shared = head) :
+    ReadOnly nullHeadMachine ∧
+    (nullHeadMachine.exec sched c).threads[i]? =
+      (c.threads[i]?).map (fun t => (nullHeadMachine.solo (sched.count i) head t).2) := by
+  have ro : ReadOnly nullHeadMachine := by
+    intro s p
+    unfold nullHeadMachine
+    simp only
+    match p.pc with
+    | 0 => rfl
+    | 1 => rfl
+    | 2 => rfl
+    | (k + 3) => rfl
+  refine ⟨ro, ?_⟩
+  subst hc
+  exact (noninterference_readonly nullHeadMachine ro sched c i).1
+
+example : ((nullHeadMachine.exec [0, 1, 0, 1] { shared := none, threads := [(⟨0, 0, 0⟩, []), (⟨0, 1, 0⟩, [])] }).threads.map (·.2))
+    = [[true], [true]] := by decide
+
 /-- Outside the quantifier: a Xerces source wrapped with the plain string pool (`parseSource(.., useXercesDOM=true)`)
 races in `getPooledString`. -/
 theorem nopool_counterexample :
-    let pool := idxOf (key% "constPathCall|XercesDocumentWrapper|getPooledString|m_stringPool->get")
+    let pool := idxOf C07_Share.k_pooledString
     (racyEntries Mode.xercesNoPool).map (·.name) = ["getPooledString|m_stringPool->get"] ∧
     hasRace (syncLoc Mode.xercesNoPool)
       (tableMachine.trace [0, 1] (tableConfig [[⟨pool, true⟩], [⟨pool, false⟩]])) = true := by
@@ -369,8 +384,8 @@ theorem nopool_counterexample :
 
 /-- Outside the quantifier: wrapper nodes built on demand (`m_mappingMode`) race on the lazily filled members. -/
 theorem mapping_mode_counterexample :
-    let nodeMap := idxOf (key% "mutableMember|XercesDocumentWrapper|m_nodeMap")
-    (racyEntries Mode.xercesMapping).length = 9 ∧
+    let nodeMap := idxOf C07_Share.k_nodeMap
+    (racyEntries Mode.xercesMapping).length = 10 ∧
     hasRace (syncLoc Mode.xercesMapping)
       (tableMachine.trace [1, 0] (tableConfig [[⟨nodeMap, true⟩], [⟨nodeMap, true⟩]])) = true := by
   refine ⟨by decide +kernel, by decide +kernel⟩
